@@ -17,13 +17,14 @@ Inductive rstep :=
 | RGen (g : Z)               (* after ORestart: the fresh generator was advanced to g before the server started *)
 | RI (io : iop).
 Record mdump := mkDump { d_name : path; d_uidv : Z; d_uidnext : Z; d_rows : list (Z * N) }.
-Record case := mkCase { k_id : nat; k_cfg : cfg; k_hash : list (N * N); k_g0 : Z; k_steps : list rstep;
+Record case := mkCase { k_id : nat; k_cfg : cfg; k_hash : list (N * option N); k_g0 : Z; k_steps : list rstep;
                         k_final : list mdump; k_listed : bool }.
 
-Fixpoint assocN (x : N) (l : list (N * N)) : option N :=
+(* hash table of the case: literal -> Some hash class | None (GetMessageHash fails for that literal) *)
+Fixpoint assocN (x : N) (l : list (N * option N)) : option (option N) :=
   match l with [] => None | (a, b) :: t => if N.eqb a x then Some b else assocN x t end.
-Definition hashf (tbl : list (N * N)) (l : N) : N :=
-  match assocN l tbl with Some h => h | None => (l + 1000000)%N end.
+Definition hashf (tbl : list (N * option N)) (l : N) : option N :=
+  match assocN l tbl with Some h => h | None => Some (l + 1000000)%N end.
 
 Definition class_of (r : result) : oclass :=
   match r with ResOk _ => KOk | ResNoLimit => KNoLimit | ResNo => KNo | ResNoKnown => KNoKnown | ResNoSize => KNoSize end.
